@@ -551,7 +551,11 @@ class _Readers:
             # (2) every octet taken is itself tested to be a digit before any success return
             ok, det = _each_octet_is_digit(f, b, self)
             if not ok:
-                self.why[name] = {"no_guarded_parse": K.why(f, mp, name), "per_octet": det}
+                # (3) the number is computed by a fallible fold over all the octets taken whose step can only succeed
+                #     on an ASCII digit
+                ok, det3 = _number_is_digit_fold(f, b, self)
+                if not ok:
+                    self.why[name] = {"no_guarded_parse": K.why(f, mp, name), "per_octet": det, "fold": det3}
         self._dig[name] = ok
         return ok
 
@@ -679,6 +683,135 @@ def _each_octet_is_digit(f, b, readers):
             continue
         # the value is only used as the payload of to_digit(10)? (ok_or / `?` on it)
         return False, {"octet_taken_at": c.where(), "digit_tests_found": {k: sorted(v) for k, v in cuts.items()}}
+    return True, None
+
+
+# iterators that yield every element of the octet sequence they were made from, each once: `s.iter()`, `.copied()`,
+# `.cloned()`, an array by value (anything that skips, takes, chains, reverses a part or maps is not in this list)
+_WHOLE_U8_ITER = re.compile(r"^((std|core)::iter::(Copied|Cloned)<)?(std|core)::slice::Iter<'\w+, u8>>?$|"
+                            r"^(std|core)::array::IntoIter<u8, \w+>$")
+_ELEMENT_KEEPING = ("iter", "into_iter", "copied", "cloned", "by_ref", "as_slice", "as_ref", "borrow", "deref")
+_BAD_VARIANTS = ("None", "Err", "Break")
+
+
+def _success_requires(t):
+    """The value that must be Some / Ok / Continue for `t` to be: `x.ok_or_else(e)`, `x.map_err(f)`, `x.map(g)`,
+    `x.and_then(g)`, `x?` re-wrapped (`Ok(x?)`, `Some(v)` for the `v` of `Some(v) = x`, also converted with `as`) all
+    succeed only if x does.  None when t is a success made of anything else (a literal, `x.unwrap_or(d)`, arithmetic)."""
+    def payload_of(v):
+        v = strip_deep(v)
+        while v[0] == "cast":
+            v = strip_deep(v[1])
+        if v[0] == "field" and str(v[2]) == "0" and v[1][0] == "variant" and v[1][2] in _GOOD_VARIANTS:
+            return strip_deep(v[1][1])
+        return None
+    t = strip_deep(t)
+    for _ in range(24):
+        # (a value that is borrowed mutably on the way — `r.insert(0)` — is not looked through)
+        if t[0] == "agg" and t[2] in _GOOD_VARIANTS and len(t[3]) == 1:
+            t = payload_of(t[3][0][1])
+            if t is None:
+                return None
+        elif _std_call(t) and t[2] and t[3].get("name") in _PAYLOAD_KEEPING | {"map", "and_then"}:
+            t = strip_deep(t[2][0])
+        else:
+            return t
+    return None
+
+
+def _step_accepts(f, g):
+    """The octets on which a fold step `(accumulator, element) -> Option / Result / ControlFlow` (closure or function
+    item) can hand on a value, by abstract interpretation of the step with the accumulator unknown: every path that is
+    not seen to return None / Err / Break counts as handing on (so the set can only be too large).  -> (set, problem)"""
+    g = strip_deep(g)
+    body = f.body(g[1]) if g[0] in ("closure", "fnref") else None
+    if body is None:
+        return None, "the step is not a closure or function of the crate: %s" % render(g)[:120]
+    ai = 2 if g[0] == "closure" else 1          # closures take their environment first
+    if body.arg_count != ai + 1:
+        return None, "the step does not take (accumulator, element)"
+    it = absint.Interp(f, inline=lambda n: n in f.bodies and f.bodies[n].file == body.file)
+    args = [None] * body.arg_count
+    args[ai] = absint.mk_obj("c", "u8")
+    try:
+        paths = it.run_body(body, args)
+    except absint.Unsupported as e:
+        return None, str(e)
+    acc = set()
+    for p in paths:
+        if p.outcome[0] == "panic":
+            continue                            # no number comes out of a panic
+        v = p.outcome[1] if p.outcome[0] == "return" else None
+        if v is not None and getattr(v, "k", None) == "variant" and getattr(v, "vname", None) in _BAD_VARIANTS:
+            continue
+        lo, hi = p.zone.bounds("c") if "c" in p.zone.syms else (0, 255)
+        acc.update(range(int(max(0, lo)), int(min(255, hi)) + 1))
+    return frozenset(acc), None
+
+
+def _mut_borrows(b, l):
+    """How often the local l is borrowed mutably."""
+    n = 0
+    for blk in b.blocks:
+        if blk.get("cleanup"):
+            continue
+        for st in blk["stmts"]:
+            if st["s"] == "assign" and st["rv"]["r"] in ("ref", "rawptr") and \
+                    (st["rv"].get("mut") or st["rv"].get("kind") == "Mut") and st["rv"]["pl"]["l"] == l:
+                n += 1
+    return n
+
+
+def _number_is_digit_fold(f, b, readers):
+    """Every value the reader returns as Ok is the outcome of `try_fold` over the whole of the one octet buffer the
+    reader fills from the source, with a step that hands on a value only for an ASCII digit.  try_fold succeeds only
+    if the step did on every element (its documented contract), so a number comes out only when all octets are
+    digits — however the step says so (`is_ascii_digit().then(..)`, `if !.. { return None }`, a `b'0'..=b'9'`
+    pattern with Some/None or Ok/Err arms): the step is evaluated for all 256 octet values.  A step the abstract
+    interpreter cannot bound is taken to hand on everything (the rule then stays unestablished)."""
+    vals = success_values(b)
+    if not vals:
+        return False, "nothing returned as Ok"
+    # the octets go into the only [u8; N] variable of the body (unnamed locals of that type are the compiler's copies
+    # of it, `s.into_iter()`), and as many are taken as it holds (the width is N)
+    arrays = {l for l in range(len(b.locals)) if re.match(r"^\[u8; \w+\]$", b.locals[l]["ty"] or "")}
+    if len({b.locals[l]["ty"] for l in arrays}) == 1:
+        arrays = {l for l in arrays if b.local_name(l)}
+    if len(arrays) != 1:
+        return False, "not exactly one octet buffer"
+    for c in b.calls():
+        if not b.is_cleanup(c.bb) and c.is_static and c.res in readers.cand and c.res != b.name:
+            return False, "octets are also taken by %s" % short(c.res)
+    buf = next(iter(arrays))
+    n = re.match(r"^\[u8; (\w+)\]$", b.locals[buf]["ty"]).group(1)
+    if n.isdigit() and readers._w(b.name, ()) != int(n):
+        return False, "takes %s octet(s) for a buffer of %s" % (readers._w(b.name, ()), n)
+    for bb, _, t in vals:
+        x = _success_requires(t)
+        if x is None or x[0] != "call" or not _std_call(x) or x[3].get("name") != "try_fold" or \
+                not (x[3].get("trait") or "").endswith("Iterator") or len(x[2]) != 3:
+            return False, {"returned_as_Ok": render(t)[:200], "problem": "not the outcome of a try_fold"}
+        ga = x[3].get("ga") or ()
+        if not ga or not _WHOLE_U8_ITER.match(ga[0]):
+            return False, {"folded": ga[0] if ga else None, "problem": "not an iterator over all octets of a buffer"}
+        r = strip_deep(x[2][0])
+        while True:
+            if r[0] == "mvar" and r[2] != buf:
+                # the iterator is borrowed mutably by the fold and by nothing else (no `it.next()` in front of it)
+                if _mut_borrows(b, r[2]) != 1:
+                    return False, {"folded": render(x[2][0])[:160], "problem": "the iterator is advanced outside the fold"}
+                r = strip_deep(r[3])
+            elif _std_call(r) and r[2] and r[3].get("name") in _ELEMENT_KEEPING:
+                r = strip_deep(r[2][0])
+            else:
+                break
+        if r[0] not in ("var", "mvar") or r[2] != buf:
+            return False, {"folded": render(x[2][0])[:160], "problem": "not the whole octet buffer"}
+        cls, prob = _step_accepts(f, x[2][2])
+        if cls is None:
+            return False, {"step": render(x[2][2])[:120], "problem": prob}
+        if not cls <= _DIGITS:
+            return False, {"step": render(x[2][2])[:120], "hands_on_a_value_for": absint.fmt_class(cls)}
     return True, None
 
 
